@@ -21,7 +21,7 @@ ASSUMPTIONS = ['text is XML-legal Unicode (lxml refuses control characters)', 'p
                'where the original has no heights (import guesses them) or no index (export writes the position) only the fixpoint and the remaining fields are required']
 N = {'quick': 1200, 'thorough': 40000}
 CLASSES = ['mixed', 'mixed', 'reading_order_full', 'reading_order_partial', 'text_classes', 'coord_classes', 'empty_page', 'many_regions']
-REQUIRED = ['exports_after_edit', 'edit:insert_line', 'edit:swap_reading_order_values', 'edit:reverse_regions', 'reloads_after_edit', 'roundtrips', 'fixpoints', 'regions_compared', 'lines_compared', 'reading_order_pages', 'reading_order_nonidentity', 'file_variant', 'bytesio_variant']
+REQUIRED = ['pages_with_byte_identical_coordinate_arrays_of_two_types', 'pages_with_negative_line_indices', 'exports_after_edit', 'edit:insert_line', 'edit:swap_reading_order_values', 'edit:reverse_regions', 'reloads_after_edit', 'roundtrips', 'fixpoints', 'regions_compared', 'lines_compared', 'reading_order_pages', 'reading_order_nonidentity', 'file_variant', 'bytesio_variant']
 SHARDS = {'quick': 4, 'thorough': 16}
 
 TEXTS = [None, '', ' ', '   ', ' lead', 'trail ', '  both  ', 'a<b>&amp;"\'c', ']]>', '<![CDATA[x]]>', 'é combining ạ̈', 'שלום עולם',
@@ -218,6 +218,20 @@ def gen(rng, i, ctx):
             stem = 'zz%d' % int(rng.integers(0, 100))
             u['id'] = 'id_' + stem
             ro[stem] = int(rng.integers(0, 3))
+    # (round 8) negative line indices; two lines of one page whose coordinate arrays hold the same bytes in different integer types (-5 as int32, 4294967291 as uint32)
+    all_lines = [l for r in regions for l in r['lines']]
+    for l in all_lines:
+        if rng.random() < 0.08:
+            l['index'] = -int(rng.integers(1, 9))
+    if len(all_lines) >= 2 and rng.random() < 0.15:
+        a_, b_ = [all_lines[int(k)] for k in rng.choice(len(all_lines), size=2, replace=False)]
+        pts = [[-int(rng.integers(1, 60)), int(rng.integers(0, 900))] for _ in range(int(rng.integers(3, 6)))]
+        pts[1][1] = -int(rng.integers(1, 30))
+        base = [[-int(rng.integers(1, 60)), int(rng.integers(0, 900))], [int(rng.integers(100, 900)), int(rng.integers(0, 900))]]
+        wrap = lambda pp: [[v % (1 << 32) for v in p_] for p_ in pp]
+        a_['polygon'], a_['baseline'], a_['dtype'] = [[float(v) for v in p_] for p_ in pts], [[float(v) for v in p_] for p_ in base], 'int32'
+        b_['polygon'], b_['baseline'], b_['dtype'] = [[float(v) for v in p_] for p_ in wrap(pts)], [[float(v) for v in p_] for p_ in wrap(base)], 'uint32'
+        case['byte_twins'] = True
     case['edits'] = [{'kind': EDITS[int(rng.integers(0, len(EDITS)))], 'a': int(rng.integers(0, 1000)), 'b': int(rng.integers(0, 1000))} for _ in range(int(rng.integers(1, 4)))]
     return case
 
@@ -227,7 +241,7 @@ def describe(case):
 
 
 def make_line(L, l):
-    return L.TextLine(id=l['id'], baseline=np.array(l['baseline']), polygon=np.array(l['polygon']),
+    return L.TextLine(id=l['id'], baseline=np.array(l['baseline'], dtype=l.get('dtype')), polygon=np.array(l['polygon'], dtype=l.get('dtype')),
                       heights=None if l['heights'] is None else list(l['heights']), transcription=l['transcription'],
                       index=l['index'], transcription_confidence=l['conf'])
 
@@ -282,6 +296,10 @@ def check(case, mon, ctx):
     L = ctx.L
     ver = L.PAGEVersion(case['version'])
     pl = build(L, case)
+    if case.get('byte_twins'):
+        mon.count('pages_with_byte_identical_coordinate_arrays_of_two_types')
+    if any(isinstance(l['index'], int) and l['index'] < 0 for r in case['regions'] for l in r['lines']):
+        mon.count('pages_with_negative_line_indices')
     try:
         x1 = pl.to_pagexml_string(version=ver)
         l1 = load(L, x1, case['variant'], ctx, mon)
